@@ -96,7 +96,8 @@ def gen_soup(rng, vocab, n):
         elif k == "odd":
             out.append(rng.pick(ODD_ASCII))
         else:
-            out.append(rng.pick(["&&", "&", "||", "|", "...", "..", "->", "-", "::", ":", "<=", ">=", "==", "!=", "=", "!"]))
+            out.append(rng.pick(["&&", "&", "||", "|", "...", "..", "->", "-", "::", ":", "<=", ">=", "==", "!=", "=", "!",
+                                 "(a,)", "(a, b)", "(a)", "()", "(a,) ->", "(" + ", ".join(["a"] * rng.pick([16, 17])) + ")"]))
     return "".join(out)
 
 
@@ -192,6 +193,43 @@ def gen_deep(rng, depth):
         lambda: wrap_expr('"a"' + '::"a"' * d),
     ]
     return forms[k]()
+
+
+ARITIES = [0, 1, 2, 3, 15, 16, 17, 18, 33]
+
+
+def gen_arity(rng):
+    """tuple-capable positions x arities 0,1,2,16,17,.. x element shapes x trailing comma"""
+    n = rng.pick(ARITIES)
+    tc = rng.pick(["", "", ",", ", "])
+    kind = rng.below(5)
+    elems = {0: ["a"] * n, 1: [f"a{i}" for i in range(n)], 2: ["1"] * n, 3: ["a + 1"] * n, 4: ["a.b", "f(a)", "(a, a)", "a"][:1] * n}[kind]
+    lst = ", ".join(elems) + (tc if n else "")
+    wrap = lambda e: "class Main { function main(): unit = { let a = 1; let u = " + e + "; } }"
+    pos = rng.below(12)
+    if pos == 0:
+        return wrap("(" + lst + ")")
+    if pos == 1:
+        return wrap("(" + lst + ") -> 1")
+    if pos == 2:
+        return wrap("f(" + lst + ")")
+    if pos == 3:
+        return wrap("1; let (" + ", ".join(["x"] * n if kind == 0 else [f"x{i}" for i in range(n)]) + (tc if n else "") + ") = a")
+    if pos == 4:
+        return wrap("match a { A(" + ", ".join(["_"] * n) + (tc if n else "") + ") -> 1 }")
+    if pos == 5:
+        return "class Main { function f(x: (" + ", ".join(["int"] * n) + (tc if n else "") + ") -> int): unit = {} }"
+    if pos == 6:
+        return "class Main { function f(x: List<" + ", ".join(["int"] * n) + (tc if n else "") + ">): unit = {} }"
+    if pos == 7:
+        return "class Main { function f(" + ", ".join(f"a{i}: int" for i in range(n)) + (tc if n else "") + "): unit = {} }"
+    if pos == 8:
+        return "class Main(" + ", ".join(f"val a{i}: int" for i in range(n)) + (tc if n else "") + ") { }"
+    if pos == 9:
+        return "class Main(A(" + ", ".join(["int"] * n) + (tc if n else "") + "), B) { }"
+    if pos == 10:
+        return "class Main<" + ", ".join(f"T{i}" for i in range(n)) + (tc if n else "") + "> { function <" + ", ".join(f"R{i}" for i in range(n)) + "> f(): unit = {} }"
+    return wrap("((" + lst + "), (" + lst + "))" + rng.pick(["", ".a", "(1)"]))
 
 
 def avoid_open_signatures(text):
@@ -339,7 +377,10 @@ def check_lex_batch(ctx, texts, label, stats):
 # ----------------------------------------------------------------------------------------------
 # protocol `full`
 
-def run_full(cases, timeout_ms=20000, workers=4):
+REAL_STACKS = {"C05_STACK_MB": "8", "C05_RAYON_STACK_MB": "2"}   # CLI: parsing on the 8 MiB main thread, checking on rayon's 2 MiB workers
+
+
+def run_full(cases, timeout_ms=20000, workers=4, env_extra=None):
     """cases: list of [(module name, text), ...] or (name, text). Returns answers; a harness death
     (stack overflow / abort) is reported as `crash ...` for the case being processed."""
     norm = [c if isinstance(c, list) else [c] for c in cases]
@@ -357,7 +398,7 @@ def run_full(cases, timeout_ms=20000, workers=4):
             chunk = idx[pos:]
             p = subprocess.run([common.harness_bin(PROP)], input=("\n".join(lines[i] for i in chunk) + "\n").encode(),
                                stdout=subprocess.PIPE, stderr=subprocess.PIPE,
-                               env=dict(os.environ, C05_TIMEOUT_MS=str(timeout_ms)))
+                               env=dict(os.environ, C05_TIMEOUT_MS=str(timeout_ms), **(env_extra or {})))
             out = [l for l in p.stdout.decode("utf-8", "replace").split("\n") if l]
             for k, a in enumerate(out[:len(chunk)]):
                 answers[chunk[k]] = a
@@ -396,8 +437,8 @@ def full_signature(ctx, mods, ans):
     return None
 
 
-def check_full_batch(ctx, cases, label, stats, timeout_ms=20000):
-    answers = run_full(cases, timeout_ms)
+def check_full_batch(ctx, cases, label, stats, timeout_ms=20000, env_extra=None):
+    answers = run_full(cases, timeout_ms, env_extra=env_extra)
     for c, a in zip(cases, answers):
         mods = c if isinstance(c, list) else [c]
         stats["full"][a.split(" ")[0]] = stats["full"].get(a.split(" ")[0], 0) + 1
@@ -423,16 +464,17 @@ def check_full_batch(ctx, cases, label, stats, timeout_ms=20000):
         hang = cls.startswith("timeout")
 
         def fails(t):
-            r = run_full([[(name0, t)] + list(mods[1:])], 1500 if hang else timeout_ms, workers=1)[0]
+            r = run_full([[(name0, t)] + list(mods[1:])], 1500 if hang else timeout_ms, workers=1, env_extra=env_extra)[0]
             return r.split(" ")[0] == cls and not full_signature(ctx, [(name0, t)] + list(mods[1:]), r)
 
         small = text0
         if len(text0) <= 60000:
             small = shrink_text(text0, fails, budget=40 if hang else 300)
         final = [[name0, small]] + [list(m) for m in mods[1:]]
-        r = run_full([[tuple(m) for m in final]], timeout_ms, workers=1)[0]
+        r = run_full([[tuple(m) for m in final]], timeout_ms, workers=1, env_extra=env_extra)[0]
         ctx.violation("the pipeline breaks C05 (crash/hang instead of result-or-diagnostics): " + describe_full(r),
-                      {"protocol": "full", "label": label, "modules": final, "impl": r, "impl_decoded": describe_full(r)})
+                      {"protocol": "full", "label": label, "modules": final, "impl": r, "impl_decoded": describe_full(r),
+                       "env": env_extra or {}})
 
 
 # ----------------------------------------------------------------------------------------------
@@ -573,15 +615,17 @@ def run(ctx):
     # 3. `full` oracle
     n_full = ctx.scale(1500, 60000)
     fdone = 0
-    fhist = {"soup": 0, "mutation": 0, "deep": 0, "multi": 0, "random": 0}
+    fhist = {"soup": 0, "mutation": 0, "deep": 0, "multi": 0, "random": 0, "arity": 0}
     depth = ctx.scale(200, 2000)
     while fdone < n_full and not ctx.violations:
         batch = []
         for _ in range(min(500, n_full - fdone)):
-            k = rng.weighted([("soup", 5), ("mutation", 8), ("deep", 1), ("multi", 2), ("random", 2)])
+            k = rng.weighted([("soup", 5), ("mutation", 8), ("deep", 0), ("multi", 2), ("random", 2), ("arity", 2)])
             r = rng.fork()
             fhist[k] += 1
-            if k == "soup":
+            if k == "arity":
+                batch.append([("Main", gen_arity(r))])
+            elif k == "soup":
                 batch.append([("Main", avoid_open_signatures(gen_soup(r, vocab, r.range(1, 60))))])
             elif k == "random":
                 batch.append([("Main", avoid_open_signatures(gen_random_text(r, r.range(0, 80))))])
@@ -602,6 +646,30 @@ def run(ctx):
         check_full_batch(ctx, batch, f"generated seed={ctx.seed}", stats, timeout_ms=ctx.scale(10000, 120000))
         fdone += len(batch)
 
+    # 4. recursion depth: "no stack overflow on reasonably sized input"
+    #  (a) under the toolchain's real stacks (8 MiB parsing thread, 2 MiB rayon workers) every nesting form up to
+    #      depth 200 (quick) / 500 (thorough) must end `ok`;
+    #  (b) thorough: the design's bound (depth <= 2000, <= 64 KiB) under 64 MiB stacks;
+    #  (c) probe of the open finding C05-F4: depth 2000 under the real stacks aborts the process.
+    ddone = 0
+    real_depth = ctx.scale(200, 500)
+    if not ctx.violations:
+        batch = [[("Main", gen_deep(rng.fork(), real_depth))] for _ in range(ctx.scale(64, 400))]
+        check_full_batch(ctx, batch, f"nesting depth <= {real_depth}, real stacks, seed={ctx.seed}", stats,
+                         timeout_ms=ctx.scale(20000, 120000), env_extra=REAL_STACKS)
+        ddone += len(batch)
+    if not ctx.quick and not ctx.violations:
+        batch = [[("Main", gen_deep(rng.fork(), 2000))] for _ in range(300)]
+        check_full_batch(ctx, batch, f"nesting depth <= 2000, 64 MiB stacks, seed={ctx.seed}", stats, timeout_ms=120000)
+        ddone += len(batch)
+    f4 = next((f for f in ctx.open_findings if f["id"] == "C05-F4"), None)
+    if f4 and not ctx.violations:
+        probes = [[("Main", wrap_expr("(" * 2000 + "1" + ")" * 2000))], [("Main", wrap_expr("a" + ".b" * 2000))]]
+        for a in run_full(probes, 60000, env_extra=REAL_STACKS):
+            if a.startswith("crash") and "overflowed its stack" in a:
+                ctx.known(f4)
+    fdone += ddone
+
     ctx.cov.update({
         "evaluations": done + fdone,
         "distinct_nontrivial": nontrivial,
@@ -614,7 +682,8 @@ def run(ctx):
         "lex_generator_histogram": gen_hist, "full_generator_histogram": fhist,
         "token_kind_histogram": stats["kinds"], "syntax_error_histogram": stats["errs"],
         "full_answer_histogram": stats["full"], "full_outcome_histogram": stats["outcome"],
-        "limits": {"max_text_bytes_quick": 9000, "nesting_depth": depth, "stack": "64 MiB (worker thread and rayon pool)",
+        "limits": {"max_text_bytes_quick": 9000, "nesting_depth_real_stacks": real_depth, "real_stacks": "8 MiB parser thread / 2 MiB rayon workers (what samlang-cli uses)",
+                   "nesting_depth_64MiB_stacks": 0 if ctx.quick else 2000, "stack": "64 MiB (worker thread and rayon pool) for the fuzz streams",
                    "watchdog_ms": ctx.scale(10000, 120000)},
         "partial_theorems": {},
         "pending": ["parser recursion depth (stack) is explored by the `full` oracle only",
@@ -624,7 +693,7 @@ def run(ctx):
     })
     ctx.assumptions += ["input is valid UTF-8 (&str); `Valid` in the theorems is weaker than UTF-8 well-formedness",
                         "texts < 4 GiB (u32 line/column counters)",
-                        "reasonably sized = <= 64 KiB and nesting depth <= 2000 with 64 MiB stacks (quick tier: depth <= 200)"]
+                        "reasonably sized, as tested: nesting depth <= 200 (quick) / 500 (thorough) on the toolchain's own stacks (8 MiB / 2 MiB); depth <= 2000 only with 64 MiB stacks (thorough) - beyond that see open finding C05-F4"]
     return ctx.finish(res, trusted=common.TRUSTED_COMMON + [
         "translators extract/c05_keywords.py (anchored regexes over LogosToken / next_token / as_str) and extract/c05_parser_loops.py (anchors in parse_module / comma list / parse_block)",
         "parser loop skeletons Model/ParserLoops.lean are hand-written; only the consume-facts of their recovery arms are extracted (the skeleton shape is checked by the extractor's anchors and exercised by the hang oracle)",
